@@ -1,4 +1,4 @@
-import ScVerif.C13.Order
+import ScVerif.C13.HoldLemmas
 import ScVerif.C13.AsyncLemmas
 /-!
 # C13 — the in-process wrapper is indistinguishable from a real gRPC connection
@@ -32,8 +32,8 @@ theorem C13_transcript_eq (shape : Shape) (out : MD) (ss : List SOp) (fin : Fin)
     | nil => rfl
     | cons kv t ih => simp [List.map]
   unfold Wrap.run Wrap.runCfg GrpcRef.run
-  simp only [hopen, hclone]
-  exact congrArg _ (go_eq fin reuse {} false (.running ss) (clientOps shape cs) {} rel_init Wrap.heapInv_init)
+  simp only [hopen, hclone, holds_current, canon_eq_statusEv]
+  exact congrArg _ (congrArg _ (go_eq fin reuse {} false (.running ss) (clientOps shape cs) {} rel_init Wrap.heapInv_init))
 
 /-- The statement of the design document, with the hypothesis spelled out. -/
 theorem C13_transcript_eq_wf (shape : Shape) (out : MD) (ss : List SOp) (fin : Fin) (cs : List COp)
@@ -65,7 +65,7 @@ theorem C13_no_goroutine_left (shape : Shape) (out : MD) (ss : List SOp) (fin : 
   have hc' : (Wrap.run shape out ss fin cs reuse).complete = true := by
     unfold Wrap.run Wrap.runCfg
     simp only [hopen]
-    rw [complete_sev _ _ (by simp)]
+    rw [complete_sev _ _ (by simp), complete_hold _ _ _ (canon_ne_stuck fin)]
     exact hc
   simpa [Transcript.complete] using hc'
 
@@ -74,7 +74,7 @@ stays blocked in SendMsg (the model says so; gRPC would buffer the message). -/
 example : SEv.left ∈ (Wrap.run .sstream [] [.recv, .send 1] .ok [.send 0, .closeSend]).server := by
   have hopen : Wrap.open .sstream = .ok := by decide
   simp only [Wrap.run, Wrap.runCfg, hopen, clientOps]
-  simp [go, sev, cev, leftT]
+  simp [go, sev, cev, leftT, hold, Wrap.holds]
 
 /-- **Messages in order.** In every run (complete or not) the messages the client received are a prefix
 of the messages the handler script sends, and the messages the handler received are a prefix of the
@@ -83,10 +83,25 @@ theorem C13_messages_in_order (shape : Shape) (out : MD) (ss : List SOp) (fin : 
     (reuse : Bool) :
     (Wrap.run shape out ss fin cs reuse).clientMsgs <+: ss.filterMap SOp.send? ∧
     (Wrap.run shape out ss fin cs reuse).serverMsgs <+: (clientOps shape cs).filterMap COp.send? := by
-  rw [C13_transcript_eq]
   have h := go_msgs fin reuse {} false (.running ss) (clientOps shape cs)
-  unfold GrpcRef.run
-  simpa [Transcript.clientMsgs, Transcript.serverMsgs, sev, Srv.ops, List.filterMap_cons, SEv.got?] using h
+  have heq := go_eq fin reuse {} false (.running ss) (clientOps shape cs) {} rel_init Wrap.heapInv_init
+  have hopen : Wrap.open shape = .ok := by cases shape <;> decide
+  unfold Wrap.run Wrap.runCfg
+  simp only [hopen]
+  rw [heq]
+  constructor
+  · have h1 : (sev (SEv.incoming (cloneMD out)) (hold (Wrap.holds Cfg.current shape) fin (Wrap.canon fin)
+        (go GrpcRef.impl fin reuse {} false (.running ss) (clientOps shape cs)))).clientMsgs =
+        (hold (Wrap.holds Cfg.current shape) fin (Wrap.canon fin)
+          (go GrpcRef.impl fin reuse {} false (.running ss) (clientOps shape cs))).clientMsgs := rfl
+    rw [h1]
+    exact List.IsPrefix.trans (clientMsgs_hold _ fin _) (by simpa [Transcript.clientMsgs, Srv.ops] using h.1)
+  · have h2 : (sev (SEv.incoming (cloneMD out)) (hold (Wrap.holds Cfg.current shape) fin (Wrap.canon fin)
+        (go GrpcRef.impl fin reuse {} false (.running ss) (clientOps shape cs)))).serverMsgs =
+        (go GrpcRef.impl fin reuse {} false (.running ss) (clientOps shape cs)).serverMsgs := by
+      simp [Transcript.serverMsgs, sev, hold_server, List.filterMap_cons, SEv.got?]
+    rw [h2]
+    simpa [Transcript.serverMsgs, Srv.ops] using h.2
 
 /-! ### Messages are copied across the boundary -/
 
@@ -267,7 +282,7 @@ theorem C13_legacy_staged_header_lost :
       Wrap.header, Wrap.trailer, Wrap.canon, cev, sev, endT, GrpcRef.setHeader, GrpcRef.headerWritten,
       GrpcRef.writeStatus, GrpcRef.header, GrpcRef.terminal, GrpcRef.trailer, GrpcRef.wireStatus,
       Wrap.xfer_header, Wrap.xfer_headerC, Wrap.xfer_trailer, Wrap.xfer_closed, Wrap.xfer_ctxErr]
-    simp
+    simp [hold, Wrap.holds, GrpcRef.holds, GrpcRef.statusEv, holdEv, GrpcRef.wireStatus]
 
 /-- … and SetHeader after the headers were sent is accepted and changes what the client reads. -/
 theorem C13_legacy_late_setheader_visible :
@@ -282,6 +297,6 @@ theorem C13_legacy_late_setheader_visible :
       GrpcRef.setHeader, GrpcRef.sendHeader, GrpcRef.beforeData, GrpcRef.headerWritten,
       GrpcRef.writeStatus, GrpcRef.header, GrpcRef.terminal, GrpcRef.trailer, GrpcRef.wireStatus,
       Wrap.xfer_header, Wrap.xfer_headerC, Wrap.xfer_trailer, Wrap.xfer_closed, Wrap.xfer_ctxErr]
-    simp
+    simp [hold, Wrap.holds, GrpcRef.holds, GrpcRef.statusEv, holdEv, GrpcRef.wireStatus]
 
 end ScVerif.C13
